@@ -798,6 +798,13 @@ def run_plan(case, res, dig, stats):
             raise Violation("extract_changed_cwd", -1, {"cwd": os.getcwd(), "after": "refused extraction"})
         if os.path.exists(os.path.join(scratch, "escape.txt")):
             raise Violation("extract_wrote_outside_root", -1, {"entries": ["escape.txt"]})
+        # (the build root is not empty: an earlier build left a file of the same name and size as a planned one, with other contents)
+        stale = next((k for k in sorted(f1) if len(f1[k]) > 0 and "/" not in k), None)
+        if stale is not None:
+            os.makedirs(os.path.join(scratch, "build"), exist_ok=True)
+            with open(os.path.join(scratch, "build", stale), "wb") as fh:
+                fh.write(bytes((b ^ 0x20) if b != 0x0a else b for b in f1[stale]))
+            stats["faults"]["stale_file"] = stats["faults"].get("stale_file", 0) + 1
         root = plan1.extract("build")
         if os.path.realpath(str(root)) != os.path.join(scratch, "build"):
             raise Violation("extract_wrong_root", -1, {"root": str(root), "expected": os.path.join(scratch, "build")})
